@@ -2,6 +2,8 @@ import WS.Lemmas.ReaderRejects
 import WS.Lemmas.SrcLaw
 import WS.Model.Http
 import WS.Lemmas.Robust
+import WS.Lemmas.ParserFuel
+import WS.Lemmas.ReaderTotal
 /-
   C07 — Untrusted network input never panics, hangs or allocates out of proportion.
 
@@ -77,6 +79,92 @@ theorem nextToken_split (s : Bytes) :
 theorem skipSpace_suffix (s : Bytes) : ∃ pre, pre ++ skipSpace s = s ∧ ∀ b ∈ pre, b = 32 ∨ b = 9 :=
   Robust.skipSpace_suffix s
 
+/-! ### never hangs, on ANY input (frame bytes): the fuel of the model's reader loops is never exhausted
+
+  `nextReaderLoop` / `mrReadLoop` take a fuel argument; running out of it is the model's "hang" outcome
+  (the driver prints `MODEL-hang`). The theorems below hold for every byte stream whatsoever —
+  conformant or garbage, complete or cut at any offset — and every reader state with a well-formed
+  byte source: each iteration that does not end the loop has consumed at least the two header bytes of
+  a frame, so the fuel the model passes is never exhausted and any larger fuel gives the same result.
+  (The conformant-stream theorems of C03 prove the same for conformant streams as a by-product; these
+  are about the inputs an attacker chooses.) -/
+
+/-- progress: a frame that advanceFrame accepts has taken at least its two header bytes from the
+    input -/
+theorem advanceFrame_ok_consumes (c c' : Conn) (t : Nat) (hwf : WF c.r.buf)
+    (h : advanceFrame c = (.ok t, c')) :
+    c'.r.buf.pending.length + 2 ≤ c.r.buf.pending.length ∧ WF c'.r.buf ∧ c'.r.buf.total = c.r.buf.total ∧
+      c'.r.buf.size = c.r.buf.size := by
+  first | exact WS.ReaderTotal.advanceFrame_ok_consumes .. | (apply WS.ReaderTotal.advanceFrame_ok_consumes <;> assumption)
+
+/-- the NextReader loop never runs out of fuel: with any fuel above half the pending input (in
+    particular with `Conn.fuel`) it ends with a message or with an error that has been latched — the
+    fuel-0 branch (which would return an error WITHOUT latching one) is never taken -/
+theorem nextReaderLoop_no_hang (n : Nat) (c : Conn) (hwf : WF c.r.buf) (he : c.r.readErr = none)
+    (hn : c.r.buf.pending.length + 1 ≤ n) :
+    (∃ t rid z c', nextReaderLoop n c = (.msg t rid z, c')) ∨
+    (∃ e c', nextReaderLoop n c = (.err e, c') ∧ c'.r.readErr = some e) := by
+  first | exact WS.ReaderTotal.nextReaderLoop_no_hang .. | (apply WS.ReaderTotal.nextReaderLoop_no_hang <;> assumption)
+
+/-- … and the fuel is an artefact: any fuel above the bound gives the same result -/
+theorem nextReaderLoop_fuel (n m : Nat) (c : Conn) (hwf : WF c.r.buf)
+    (hn : c.r.buf.pending.length + 1 ≤ n) (hm : c.r.buf.pending.length + 1 ≤ m) :
+    nextReaderLoop n c = nextReaderLoop m c := by
+  first | exact WS.ReaderTotal.nextReaderLoop_fuel .. | (apply WS.ReaderTotal.nextReaderLoop_fuel <;> assumption)
+
+/-- NextReader on ANY input: a message, the documented panic, or an error that is the latched one -/
+theorem nextReader_total (c : Conn) (hwf : WF c.r.buf) (hfuel : c.r.buf.pending.length ≤ c.r.buf.total) :
+    (∃ t rid z c', nextReader c = (.msg t rid z, c')) ∨
+    (∃ c', nextReader c = (.panic, c') ∧ 1000 ≤ c.r.errCount + 1) ∨
+    (∃ e c', nextReader c = (.err e, c') ∧ c'.r.readErr = some e) := by
+  first | exact WS.ReaderTotal.nextReader_total .. | (apply WS.ReaderTotal.nextReader_total <;> assumption)
+
+/-- messageReader.Read: the fuel is an artefact for the Read loop as well -/
+theorem mrReadLoop_fuel (n m : Nat) (c : Conn) (rid k : Nat) (hwf : WF c.r.buf)
+    (hn : c.r.buf.pending.length + 2 ≤ n) (hm : c.r.buf.pending.length + 2 ≤ m) :
+    mrReadLoop n c rid k = mrReadLoop m c rid k := by
+  first | exact WS.ReaderTotal.mrReadLoop_fuel .. | (apply WS.ReaderTotal.mrReadLoop_fuel <;> assumption)
+
+/-- Read on ANY input returns data, end of message, or an error that is latched (or, for a stale
+    reader, io.EOF): never the fuel-exhaustion outcome -/
+theorem mrRead_total (c : Conn) (rid k : Nat) (hk : 0 < k) (hwf : WF c.r.buf)
+    (hfuel : c.r.buf.pending.length ≤ c.r.buf.total) :
+    ∀ out e c', mrRead c rid k = ((out, some e), c') →
+      e = .eof ∨ c'.r.readErr ≠ none := by
+  first | exact WS.ReaderTotal.mrRead_total .. | (apply WS.ReaderTotal.mrRead_total <;> assumption)
+
+/-! ### never loops without consuming input (header values): the fuel of the parsers' loops is an artefact -/
+
+/-- tokenListContainsValue: every iteration of the per-line loop consumes at least one byte (a
+    non-empty token and its comma), so the loop run with ANY fuel above the line length computes the
+    public function: the fuel-0 branch is unreachable -/
+theorem lineContains_any_fuel (s value : Bytes) (n : Nat) (h : s.length + 1 ≤ n) :
+    lineContains s value = lineContainsAux n s value :=
+  WS.ParserFuel.lineContains_any_fuel s value n h
+
+/-- parseExtensions: the same for the extension-list loop of every header line, whatever fuel above
+    the line length is chosen per line -/
+theorem parseExtensions_any_fuel (lines : List Bytes) (f : Bytes → Nat) (hf : ∀ l, l.length + 1 ≤ f l) :
+    parseExtensions lines = lines.foldl (fun acc l => acc ++ lineExtsAux (f l) l []) [] :=
+  WS.ParserFuel.parseExtensions_any_fuel lines f hf
+
+/-- the parameter loop of one extension: any fuel above the input length gives the same result -/
+theorem paramsAux_fuel (n : Nat) (s : Bytes) (acc : Ext) (h : s.length + 1 ≤ n) :
+    paramsAux n s acc = paramsAux (s.length + 1) s acc :=
+  WS.ParserFuel.paramsAux_fuel n s acc h
+
+/-- what is left after the parameters of an extension is not longer than the input (the loops only
+    ever move forward) -/
+theorem paramsAux_rest_le (n : Nat) (s : Bytes) (acc : Ext) :
+    (paramsAux n s acc).2.1.length ≤ s.length :=
+  WS.ParserFuel.paramsAux_rest_le n s acc
+
+/-- isValidChallengeKey: the base64 length walk consumes four characters per iteration -/
+theorem b64DecodedLen_any_fuel (s : Bytes) (n : Nat)
+    (h : (s.filter (fun b => b != 10 && b != 13)).length + 1 ≤ n) :
+    b64DecodedLen s = b64LenAux n (s.filter (fun b => b != 10 && b != 13)) 0 :=
+  WS.ParserFuel.b64DecodedLen_any_fuel s n h
+
 /-! ### non-vacuity -/
 section NonVacuity
 set_option linter.defProp false
@@ -137,6 +225,67 @@ example : (nextReader witGarbage).2.r.readErr = some (.protocol "RSV1 set, RSV2 
 example : (nextTokenOrQuoted (strBytes "\"a\\\"b\"; rest")).1 = strBytes "a\"b" ∧
     (nextToken (strBytes "permessage-deflate; x")).1 = strBytes "permessage-deflate" ∧
     skipSpace (strBytes " \t websocket") = strBytes "websocket" := by decide +kernel
+
+/-- `witGarbage`'s byte source is well formed (what every reachable state satisfies) -/
+def witGarbage_wf : WF witGarbage.r.buf := ⟨by decide, by decide, by decide, (by intro e h; cases h)⟩
+
+/-- a client connection fed pings, pongs and then noise: the NextReader loop has to iterate -/
+def witPings : Conn :=
+  { w := { newW false 4096 false false with keys := [1, 2, 3, 4] },
+    r := { isServer := false, nego := false, errCount := 0,
+           buf := { size := 4096, buf := [], t := { chunks := [[0x89, 0x00, 0x8A], [0x01, 0x55, 0x89, 0x00], [0x8A, 0x00, 0x8F, 0x00]] }, total := 11 } } }
+
+def witPings_wf : WF witPings.r.buf := ⟨by decide, by decide, by decide, (by intro e h; cases h)⟩
+
+/-- non-vacuity of `nextReader_total` and `nextReaderLoop_no_hang`: the hypotheses hold for garbage
+    input, and the outcome is the third disjunct with the protocol error latched -/
+example : (∃ t rid z c', nextReader witGarbage = (.msg t rid z, c')) ∨
+    (∃ c', nextReader witGarbage = (.panic, c') ∧ 1000 ≤ witGarbage.r.errCount + 1) ∨
+    (∃ e c', nextReader witGarbage = (.err e, c') ∧ c'.r.readErr = some e) :=
+  nextReader_total witGarbage witGarbage_wf (by decide)
+
+example : (∃ t rid z c', nextReaderLoop witPings.fuel witPings = (.msg t rid z, c')) ∨
+    (∃ e c', nextReaderLoop witPings.fuel witPings = (.err e, c') ∧ c'.r.readErr = some e) :=
+  nextReaderLoop_no_hang witPings.fuel witPings witPings_wf rfl (by decide)
+
+/-- … evaluated: four control frames are skipped (the loop iterates), then the bad frame is refused
+    and the error latched; a fuel of 12 (= pending + 1) and the model's own 4108 agree -/
+example : (nextReaderLoop witPings.fuel witPings).2.r.readErr = some (.protocol "bad opcode 15") ∧
+    (nextReaderLoop witPings.fuel witPings).2.r.hlog = [.ping [], .pong [0x55], .ping [], .pong []] ∧
+    (nextReaderLoop 12 witPings).2.r.hlog = (nextReaderLoop witPings.fuel witPings).2.r.hlog := by decide +kernel
+
+example : nextReaderLoop 12 witPings = nextReaderLoop witPings.fuel witPings :=
+  nextReaderLoop_fuel 12 witPings.fuel witPings witPings_wf (by decide) (by decide)
+
+/-- non-vacuity of `advanceFrame_ok_consumes`: the first ping of `witPings` -/
+example : (advanceFrame witPings).2.r.buf.pending.length + 2 ≤ witPings.r.buf.pending.length :=
+  (advanceFrame_ok_consumes witPings (advanceFrame witPings).2 9 witPings_wf (by rfl)).1
+
+/-- non-vacuity of `mrRead_total` / `mrReadLoop_fuel`: a reader opened on a message whose continuation
+    never arrives (cut inside the second frame's header) -/
+def witCut : Conn :=
+  { w := { newW false 4096 false false with keys := [1, 2, 3, 4] },
+    r := { isServer := false, nego := false, errCount := 0, final := false, remaining := 0, msgReader := some 7,
+           buf := { size := 4096, buf := [0x89, 0x00, 0x80], t := { chunks := [], term := .eof }, total := 9 } } }
+
+def witCut_wf : WF witCut.r.buf := ⟨by decide, by decide, by decide, (by intro e h; cases h)⟩
+
+example : ∀ out e c', mrRead witCut 7 16 = ((out, some e), c') → e = .eof ∨ c'.r.readErr ≠ none :=
+  mrRead_total witCut 7 16 (by decide) witCut_wf (by decide)
+
+example : mrReadLoop 5 witCut 7 16 = mrReadLoop (witCut.fuel + 1) witCut 7 16 :=
+  mrReadLoop_fuel 5 (witCut.fuel + 1) witCut 7 16 witCut_wf (by decide) (by decide)
+
+/-- instances of the parser theorems: an offer with parameters and a quoted value, run with the model's
+    fuel and with a much larger one -/
+example : lineContains (strBytes "keep-alive, Upgrade") (strBytes "upgrade") = true ∧
+    lineContainsAux 1000 (strBytes "keep-alive, Upgrade") (strBytes "upgrade") = true ∧
+    (parseExtensions [strBytes "foo; a=\"x, y\", permessage-deflate; client_max_window_bits"]).length = 2 := by
+  decide +kernel
+
+example : parseExtensions [strBytes "permessage-deflate; a=1, x"] =
+    [strBytes "permessage-deflate; a=1, x"].foldl (fun acc l => acc ++ lineExtsAux (l.length + 500) l []) [] :=
+  parseExtensions_any_fuel _ (fun l => l.length + 500) (by intro l; omega)
 
 end NonVacuity
 
